@@ -14,6 +14,11 @@ class Func:
         self.src = None
 
 
+class FuncMap(dict):
+    """name -> Func, plus `statics`: allocN -> path of the static it backs"""
+    statics = {}
+
+
 def split_top(s, sep=","):
     """split on sep at nesting depth 0 of ()[]{}<> (ignores '->' and '=>')"""
     out, depth, cur, i = [], 0, [], 0
@@ -42,11 +47,17 @@ HEADER_RE = re.compile(r"^fn (.+?)\((.*)\) -> (.+) \{$")
 
 def parse(path):
     """-> {name: Func}; also promoted bodies `promoted[N] in <fn>` are kept under that name."""
-    funcs = {}
+    funcs = FuncMap()
     cur = None
     block = None
     with open(path, errors="replace") as f:
         lines = f.read().split("\n")
+    statics = {}
+    for ln in lines:
+        m = re.match(r"^(alloc\d+) \(static: ([^,)]+)", ln)
+        if m:
+            statics[m.group(1)] = m.group(2)
+    funcs.statics = statics
     i = 0
     n = len(lines)
     while i < n:
@@ -64,6 +75,10 @@ def parse(path):
                             l, t = a.split(":", 1)
                             cur.args.append((l.strip().replace("mut ", ""), t.strip()))
                             cur.locals[l.strip().replace("mut ", "")] = t.strip()
+            elif re.match(r"^const (.*::promoted\[\d+\]): (.*) = \{$", ln):
+                m = re.match(r"^const (.*::promoted\[\d+\]): (.*) = \{$", ln)
+                cur = Func(m.group(1), ln)
+                cur.ret = m.group(2)
             elif ln.startswith("promoted[") or ln.startswith("const ") or ln.startswith("static "):
                 # skip body of consts/promoteds/statics
                 if ln.rstrip().endswith("{"):
